@@ -268,3 +268,79 @@ func (e *eng) leavejoin(kind string, iterations int) string {
 	}
 	return "ok"
 }
+
+// cmock counts the departures it is told about.
+type cmock struct {
+	rmock
+	cmu     sync.Mutex
+	deletes map[string]int
+}
+
+func (m *cmock) PushClient(group, kind, id, username string, perms []string, data map[string]interface{}) error {
+	if kind == "delete" {
+		m.cmu.Lock()
+		if m.deletes == nil {
+			m.deletes = map[string]int{}
+		}
+		m.deletes[id]++
+		m.cmu.Unlock()
+	}
+	return nil
+}
+
+// dupleave: one member's departure is reported by several goroutines at the same instant (as happens
+// when a connection is closed by its handler, by an ICE callback and by a kick).  C14: every remaining
+// member is told exactly once.
+func (e *eng) dupleave(rounds int) string {
+	raceSeq++
+	name := fmt.Sprintf("dl%d", raceSeq)
+	file := filepath.Join(e.dir, name+".json")
+	if err := os.WriteFile(file, []byte(`{"users":{"u":{"password":"p","permissions":"present"}}}`), 0600); err != nil {
+		return "env:" + err.Error()
+	}
+	defer os.Remove(file)
+	u := "u"
+	creds := group.ClientCredentials{Username: &u, Password: "p"}
+	a := &cmock{rmock: rmock{id: "watcher"}}
+	g, err := group.AddClient(name, a, creds)
+	if err != nil {
+		return "env:" + err.Error()
+	}
+	a.mu.Lock()
+	a.g = g
+	a.mu.Unlock()
+	defer func() {
+		group.DelClient(a)
+		group.Delete(name)
+	}()
+	const callers = 3
+	for r := 0; r < rounds; r++ {
+		d := &cmock{rmock: rmock{id: fmt.Sprintf("d%d", r)}}
+		if _, err := group.AddClient(name, d, creds); err != nil {
+			return "env:" + err.Error()
+		}
+		d.mu.Lock()
+		d.g = g
+		d.mu.Unlock()
+		var ready int32
+		var wg sync.WaitGroup
+		for i := 0; i < callers; i++ {
+			wg.Add(1)
+			go func() {
+				defer wg.Done()
+				atomic.AddInt32(&ready, 1)
+				for atomic.LoadInt32(&ready) < callers {
+				}
+				group.DelClient(d)
+			}()
+		}
+		wg.Wait()
+		a.cmu.Lock()
+		n := a.deletes[d.id]
+		a.cmu.Unlock()
+		if n != 1 {
+			return fmt.Sprintf("bad:round-%d:the-remaining-member-was-told-%d-times-that-%s-left", r, n, d.id)
+		}
+	}
+	return "ok"
+}
